@@ -1,7 +1,11 @@
 import NanoVerif.Model.DriverMain
-/-! line-protocol driver of C18 (must not import Mathlib, directly or indirectly); stub until the family exists -/
+import NanoVerif.Driver.Reduce
+/-! line-protocol driver of C18 (must not import Mathlib, directly or indirectly) -/
 open NanoVerif
 
-def handle (_fam : String) (_rest : List String) : Option String := none
+def handle (fam : String) (rest : List String) : Option String :=
+  match fam with
+  | "reduce" => Driver.Reduce.handle rest
+  | _ => none
 
 def main : IO Unit := DriverMain.run handle
